@@ -25,6 +25,7 @@ type Env struct {
 	pkg     *types.Package
 	callArg bool // names shadow everything (callee contract evaluated at a call site)
 	closed  bool // the result must be a closed term over bound variables (spec func body, quantifier body)
+	localsOK bool // local variables (latest tracked value) may be named (helper clauses labelled local-...)
 }
 
 var (
@@ -149,7 +150,7 @@ func (env *Env) index(b, i *Val) *Val {
 		c, s := e.elemComp(bt.Elem())
 		h := e.heapGet(env.st, c, s)
 		idx := env.coerceInt(i, tInt)
-		return &Val{T: sx("select", sx("select", h, sx("sl_reg", b.T)), sx("+", sx("sl_off", b.T), idx)), Ty: bt.Elem()}
+		return &Val{T: sx("select", sx("select", h, sx("sl_reg", b.T)), e.at(sx("sl_off", b.T), idx)), Ty: bt.Elem()}
 	case *types.Map:
 		k := env.coerce(i, bt.Key())
 		mv, mvs, _, _ := e.mapComps(bt)
@@ -193,7 +194,7 @@ func (env *Env) ident(name string) *Val {
 		return env.materialize(v)
 	}
 	if env.fr != nil {
-		if v, ok := env.fr.vars[name]; ok && env.useVars {
+		if v, ok := env.fr.vars[name]; ok && (env.useVars || env.localsOK) {
 			return env.materialize(v)
 		}
 	}
@@ -495,20 +496,50 @@ func (env *Env) call(n *ast.CallExpr) *Val {
 			// forall(i, body) / forall(i, j, body); bound variables are mathematical ints
 			var bs []string
 			ne := env
+			var triggers []ast.Expr
 			for _, a := range n.Args[:len(n.Args)-1] {
-				v := a.(*ast.Ident).Name
-				bn := quoteSym("q$" + v)
 				srt := "Int"
 				ty := types.Type(tInt)
 				if e.bv {
 					srt = "(_ BitVec 64)"
 				}
+				var v string
+				if ce, ok := a.(*ast.CallExpr); ok {
+					if fid, ok := ce.Fun.(*ast.Ident); ok && fid.Name == "trigger" {
+						triggers = append(triggers, ce)
+						continue
+					}
+				}
+				switch b := a.(type) {
+				case *ast.Ident:
+					v = b.Name
+				case *ast.CallExpr:
+					// typed binder: sort(name), e.g. intarr(a), string(s), base.Stage(s)
+					v = b.Args[0].(*ast.Ident).Name
+					kw := types.ExprString(b.Fun)
+					srt, ty = e.specSort(env, kw)
+				default:
+					specErr("bad binder in %s", id.Name)
+				}
+				bn := quoteSym("q$" + v)
 				bs = append(bs, fmt.Sprintf("(%s %s)", bn, srt))
 				ne = ne.with(v, &Val{T: bn, Ty: ty})
 				ne.closed = true
 			}
 			body := ne.eval(n.Args[len(n.Args)-1])
-			return &Val{T: fmt.Sprintf("(%s (%s) %s)", id.Name, strings.Join(bs, " "), body.T), Ty: tBool}
+			bt := body.T
+			if len(triggers) > 0 {
+				var pats []string
+				for _, tr := range triggers {
+					var ts []string
+					for _, ta := range tr.(*ast.CallExpr).Args {
+						ts = append(ts, ne.eval(ta).T)
+					}
+					pats = append(pats, ":pattern ("+strings.Join(ts, " ")+")")
+				}
+				bt = "(! " + bt + " " + strings.Join(pats, " ") + ")"
+			}
+			return &Val{T: fmt.Sprintf("(%s (%s) %s)", id.Name, strings.Join(bs, " "), bt), Ty: tBool}
 		case "len":
 			v := env.eval(n.Args[0])
 			return &Val{T: e.lenOf(env.st, v), Ty: tInt}
@@ -532,6 +563,44 @@ func (env *Env) call(n *ast.CallExpr) *Val {
 			t := env.evalType(n.Args[1])
 			_, ub, _ := e.boxFuncs(t)
 			return &Val{T: sx(ub, v.T), Ty: t}
+		case "unfold":
+			// unfold(f(args)): the definitional instance f(args) == body[args]
+			ce, ok := n.Args[0].(*ast.CallExpr)
+			if !ok {
+				specErr("unfold needs f(args)")
+			}
+			fid, ok := ce.Fun.(*ast.Ident)
+			if !ok || e.SpecFuncs[fid.Name] == nil || e.SpecFuncs[fid.Name].Body == nil {
+				specErr("unfold: not a defined spec function")
+			}
+			sf := e.SpecFuncs[fid.Name]
+			app := env.specCall(sf, ce.Args)
+			penv := e.specEnv(sf.Pkg)
+			benv := penv
+			for i, p := range sf.Params {
+				v := env.eval(ce.Args[i])
+				_, pt := e.specSort(penv, p.Sort)
+				benv = benv.with(p.Name, &Val{T: env.coerce(v, pt), Ty: pt})
+			}
+			benv.closed = true
+			_, rt := e.specSort(penv, sf.Ret)
+			body := benv.eval(sf.Body.Expr)
+			return &Val{T: eq(app.T, benv.coerce(body, rt)), Ty: tBool}
+		case "elems":
+			// elems(s): the element array of slice s's backing region in the current state
+			v := env.eval(n.Args[0])
+			sl, ok := v.Ty.Underlying().(*types.Slice)
+			if !ok {
+				specErr("elems of non-slice")
+			}
+			c, s := e.elemComp(sl.Elem())
+			return &Val{T: sx("select", e.heapGet(env.st, c, s), sx("sl_reg", v.T)), Ty: types.NewArray(sl.Elem(), 0)}
+		case "soff":
+			v := env.eval(n.Args[0])
+			return &Val{T: sx("sl_off", v.T), Ty: tInt}
+		case "sreg":
+			v := env.eval(n.Args[0])
+			return &Val{T: sx("sl_reg", v.T), Ty: tInt}
 		case "allocated":
 			v := env.eval(n.Args[0])
 			return &Val{T: sx("select", e.allocGet(env.st), v.T), Ty: tBool}
@@ -656,6 +725,10 @@ func (e *Engine) specSort(env *Env, kw string) (string, types.Type) {
 		return "String", tString
 	case "mathint":
 		return "Int", tInt
+	case "intarr":
+		return "(Array Int Int)", types.NewArray(tInt, 0)
+	case "strarr":
+		return "(Array Int String)", types.NewArray(tString, 0)
 	}
 	// Go type expression
 	x, err := parseTypeExpr(kw)
@@ -735,14 +808,35 @@ func (e *Engine) declareSpecFunc(sf *SpecFunc) {
 	if sf.Rec {
 		// reserve a slot so that the definition precedes later uses, then
 		// evaluate the body (which may call itself)
-		idx := len(e.decls)
-		e.addDecl("")
+		// recursive spec functions are uninterpreted; their definition is
+		// supplied instance-wise through unfold(f(args)) (no define-fun-rec:
+		// it makes the solvers diverge on unrelated goals)
+		// the true recursive definition is used only when searching for a
+		// replayable counterexample (helpers it calls get declared first)
 		body := benv.eval(sf.Body.Expr)
-		e.decls[idx] = fmt.Sprintf("(define-fun-rec %s (%s) %s %s)", f, strings.Join(ps, " "), rs, benv.coerce(body, rt))
+		decl := fmt.Sprintf("(declare-fun %s (%s) %s)", f, strings.Join(psorts, " "), rs)
+		e.addDecl(decl)
+		e.Assumed["recursive spec function "+sf.Name+" is well-founded (its unfold instances are consistent)"] = true
+		if e.recDefs == nil {
+			e.recDefs = map[string]string{}
+		}
+		e.recDefs[decl] = fmt.Sprintf("(define-fun-rec %s (%s) %s %s)", f, strings.Join(ps, " "), rs, benv.coerce(body, rt))
+		var pn []string
+		for _, p := range sf.Params {
+			pn = append(pn, quoteSym("a$"+p.Name))
+		}
+		e.recInfo = append(e.recInfo, recFun{sym: f, params: pn, body: benv.coerce(body, rt)})
 		return
 	}
 	body := benv.eval(sf.Body.Expr)
 	e.addDecl(fmt.Sprintf("(define-fun %s (%s) %s %s)", f, strings.Join(ps, " "), rs, benv.coerce(body, rt)))
+	if strings.Contains(body.T, "spec$") {
+		var pn []string
+		for _, p := range sf.Params {
+			pn = append(pn, quoteSym("a$"+p.Name))
+		}
+		e.recInfo = append(e.recInfo, recFun{sym: f, params: pn, body: benv.coerce(body, rt), macro: true})
+	}
 }
 
 // assertAxioms adds all axioms to a path.
